@@ -377,6 +377,14 @@ def tonePower (n : Nat) (s : Nat → α) (fs f : α) : α := (toneConv n s fs f)
 /-- `util.tone_phase_conv` -/
 def tonePhase (n : Nat) (s : Nat → α) (fs f : α) : α := (toneConv n s fs f).arg
 
+/-- `util.tone_conv(s, fs, frequency, window=w, detrend=None)`: the same on `w/w.mean()*s` -/
+def toneConvW (n : Nat) (w s : Nat → α) (fs f : α) : Cx α :=
+  toneConv n (applyWindow (meanTo n w) w s) fs f
+
+def tonePowerW (n : Nat) (w s : Nat → α) (fs f : α) : α := (toneConvW n w s fs f).abs / sqrt (nat 2)
+
+def tonePhaseW (n : Nat) (w s : Nat → α) (fs f : α) : α := (toneConvW n w s fs f).arg
+
 /-- `util.rms(s)`: `np.mean(s**2)**0.5` -/
 def rms (n : Nat) (s : Nat → α) : α := sqrt (meanTo n fun j => s j * s j)
 
@@ -515,5 +523,27 @@ normalise, then `waveform *= sf` with `sf = calibration.get_sf(1e3, level)` -/
 def loadWav (norm : WavNorm) (sf : α) (x : List α) : List α := (wavNormalize norm x).map (· * sf)
 
 end Filter
+
+section Chirp
+variable {α : Type} [TrigField α]
+
+/-- `np.cumsum(x)` continued from `acc` -/
+def cumsumFrom (acc : α) : List α → List α
+  | [] => []
+  | x :: t => (acc + x) :: cumsumFrom (acc + x) t
+
+/-- `stim.chirp(fs, f0, f1, duration, level, calibration, window, equalize=False)` 1253-1299, from the window
+samples `w = get_window(window, n)` (cells) and `sf = get_mean_sf(f0, f1, level)`:
+`wi_norm = cumsum(w**2)/sum(w**2)`, `ifreq = wi_norm*(f1 - f0) + f0`, `phase = cumsum(ifreq)/fs`, `w /= rms(w)`,
+`sqrt(2)*sf*w*sin(2*pi*phase)`.  (`np.sum` adds pairwise, `sumList` in list order: a transcription tolerance.) -/
+def chirp (fs f0 f1 sf : α) (w : List α) : List α :=
+  let w2 := w.map fun v => v * v
+  let tot := sumList w2
+  let ifreq := (cumsumFrom (nat 0) w2).map fun c => c / tot * (f1 - f0) + f0
+  let phase := (cumsumFrom (nat 0) ifreq).map (· / fs)
+  let r := rmsL w
+  List.zipWith (fun wv ph => sqrt (nat 2) * sf * (wv / r) * sin (nat 2 * pi * ph)) w phase
+
+end Chirp
 
 end Psi.Db
